@@ -141,3 +141,78 @@ func OpenNull() *T {
 	f, _ := os.OpenFile(os.DevNull, os.O_WRONLY, 0)
 	return &T{f: f, w: bufio.NewWriterSize(f, 1<<16), t0: time.Now(), ids: map[string]map[any]int{}, Mute: true}
 }
+
+// ---------------------------------------------------------------- ownership events (C20)
+
+// Own turns the pool / object hook events into the ownership trace. Normal get/release events are
+// written for a sample of objects only (1 in Every); anomalies are always written.
+type Own struct {
+	T     *T
+	Every int
+	mu    sync.Mutex
+	ids   map[any]int
+	held  map[any]bool
+}
+
+func NewOwn(path string, every int) *Own {
+	return &Own{T: Open(path), Every: every, ids: map[any]int{}, held: map[any]bool{}}
+}
+
+// Handle consumes buf.* and obj.* hook events; it returns false for other events.
+func (o *Own) Handle(name string, args []any) bool {
+	switch name {
+	case "buf.get":
+		id := args[0].(int)
+		if washeld := args[2].(bool); washeld || id%o.Every == 0 {
+			o.T.Emit("own.get", "kind", "buf", "id", id, "washeld", washeld, "sampled", id%o.Every == 0)
+		}
+	case "buf.release":
+		id, held := args[0].(int), args[1].(bool)
+		if !held || id%o.Every == 0 {
+			o.T.Emit("own.release", "kind", "buf", "id", id, "held", held, "sampled", held && id%o.Every == 0)
+		}
+	case "buf.quarantine":
+		id, intact := args[0].(int), args[1].(bool)
+		if !intact || id%o.Every == 0 {
+			o.T.Emit("own.qexit", "id", id, "intact", intact)
+		}
+	case "obj.get", "obj.release":
+		kind := args[0].(string)
+		o.mu.Lock()
+		id, ok := o.ids[args[1]]
+		if !ok {
+			id = len(o.ids) + 1
+			o.ids[args[1]] = id
+		}
+		was := o.held[args[1]]
+		o.held[args[1]] = name == "obj.get"
+		o.mu.Unlock()
+		sampled := id%o.Every == 0
+		if name == "obj.get" {
+			if was || sampled {
+				o.T.Emit("own.get", "kind", kind, "id", id, "washeld", was, "sampled", sampled)
+			}
+		} else if !was || sampled {
+			o.T.Emit("own.release", "kind", kind, "id", id, "held", was, "sampled", was && sampled)
+		}
+	default:
+		return false
+	}
+	return true
+}
+
+// PoisonRun reports whether b contains a run of at least n poison octets (0xDB): bytes of a released buffer.
+func PoisonRun(b []byte, n int) bool {
+	run := 0
+	for _, c := range b {
+		if c == 0xDB {
+			run++
+			if run >= n {
+				return true
+			}
+		} else {
+			run = 0
+		}
+	}
+	return false
+}
